@@ -5,6 +5,7 @@ import scen_common
 PID = "C10"
 PROP_V = ["Props/Properties_C10.v"]
 GEN_MODULES = ["Consts", "Sites"]
+FLOW_FILES = ['counter.c']
 REPLAY_HINT = "VRT_SEED=<seed> _work/h/counter_mix"
 PARTIAL = ["C10_no_stuck is proved in the form C10_no_stuck_partial (an unfinished thread can run, or waits for a lock whose holder can run, or "
            "sleeps with its record queued while the value is non-zero); the unconditional statement is refuted by a client-side deadlock "
